@@ -17,6 +17,7 @@ func init() {
 	rt.Register("H_C04_reduce", H_C04_reduce)
 	rt.Register("H_C04_scalar", H_C04_scalar)
 	rt.Register("H_C04_recv", H_C04_recv)
+	rt.Register("H_C04_digest", H_C04_digest)
 }
 
 // NIL is nil itself or a nil made with Nil.bear(...).new (prints as nil, == nil, NilType)
@@ -335,6 +336,26 @@ var c04Receivers = []string{`3`, `"ab"`, `(1:4)`, `{a: 1, b: 2}`, `%{'a: 1, 'b: 
 
 // H_C04_recv: the three call forms agree for every built-in receiver kind (int, str, range,
 // obj, map, iterator, arr) in list and reduce context, with the total property S.
+// H_C04_digest: the three call forms agree when the list chain has a chain argument of any
+// container kind (the collected results are digested into it), also when NOTHING is
+// collected: empty receivers, receivers whose results are all nil or all dropped.
+var c04DigestRecv = []string{`[]`, `[nil, nil]`, `[{a: nil}]`, `[{a: ["k", 1]}]`, `[{a: ["k", 1]}, nil, {a: nil}]`, `0`, `""`, `{}`}
+var c04DigestArg = []string{`({})`, `(%{})`, `([])`, `({c: 6})`, `(%{'c: 6})`, `([7])`}
+
+func H_C04_digest() {
+	h := NewH()
+	recv := c04DigestRecv[rt.Choice(len(c04DigestRecv))]
+	arg := c04DigestArg[rt.Choice(len(c04DigestArg))]
+	chain := []string{"@", "=@", "~@", "&@"}[rt.Choice(4)]
+	h.Eval(`r := ` + recv + `; f := {|e| e.a}`)
+	rt.Note(`r` + chain + arg + `a   with r := ` + recv)
+	prop := h.EvalNoPanic(`r` + chain + arg + `a`)
+	lit := h.EvalNoPanic(`r` + chain + arg + `{|e| e.a}`)
+	vr := h.EvalNoPanic(`r` + chain + arg + `^f`)
+	rt.Assert(prop.Type() == lit.Type() && prop.Inspect() == lit.Inspect(), "property call and literal call must agree on the digest into the chain argument")
+	rt.Assert(vr.Type() == lit.Type() && vr.Inspect() == lit.Inspect(), "variable call and literal call must agree on the digest into the chain argument")
+}
+
 func H_C04_recv() {
 	recv := c04Receivers[rt.Param(0)]
 	h := NewH()
